@@ -32,7 +32,7 @@ import (
 )
 
 func main() {
-	Main("C06", check, func(c *Ctx) (string, []byte, error) { return tabgen.Gen(c.Repo) }, rendergen.Gen)
+	Main("C06", check, func(c *Ctx) (string, []byte, error) { return tabgen.Gen(c.Repo) }, rendergen.Gen, stateGen)
 }
 
 const imp = "From Sdfx Require Import Render.C06Corr.\nOpen Scope float_scope."
@@ -1041,6 +1041,75 @@ func check(c *Ctx, r *Report) error {
 					sp := genSpec(rng, rd, n)
 					sp.Prev = h.prev
 					st.do(sp, fmt.Sprintf("history/%s/%s/%s", rd, h.name, sp.Shape.Kind), rng)
+				}
+			}
+		}
+		// one renderer VALUE, the same sample grid or the same model VALUE again (marchkit/mutate.go): (a) different
+		// fields with exactly the same bounding box one after the other, (b) ONE model value rendered, changed in
+		// place (SetMin / SetMax / SetExtrude / a parameter of a user-defined field; a CacheSDF2 filling up) and
+		// rendered again by the same renderer value.  Every mesh must equal, triangle for triangle, the mesh by a
+		// fresh renderer value, and every vertex must lie on a lattice edge straddling the surface of the model AS IT
+		// IS NOW: all these fields are 1-Lipschitz, so |f(v)| <= cell edge
+		{
+			sbCtr := v3.Vec{X: rng.Dyadic(2, 2), Y: rng.Dyadic(2, 2), Z: rng.Dyadic(2, 2)}
+			sbA := []float64{1, 2.5, 0.125}[rng.Intn(3)]
+			sbT := rng.Float()
+			mutK := rng.Uniform(0.5, 1)
+			for _, rd := range []string{"octree", "uniform"} {
+				cells := []int{24, 16, 11}[rng.Intn(3)]
+				newR := func() render.Render3 {
+					if rd == "octree" {
+						return render.NewMarchingCubesOctree(cells)
+					}
+					return render.NewMarchingCubesUniform(cells)
+				}
+				type hist struct {
+					stratum string
+					steps   []mk.Step3
+				}
+				var hists []hist
+				for _, h := range mk.Histories3(mk.SameBox3(sbCtr, sbA, sbT)) {
+					hists = append(hists, hist{"reuse-same-box/" + rd, h})
+				}
+				for _, m := range mk.Mutables3(sbCtr, sbA, mutK) {
+					hists = append(hists, hist{"reuse-mutated-in-place/" + rd, m.History()})
+				}
+				for hi, hh := range hists {
+					var names []string
+					for _, s := range hh.steps {
+						if s.InfoOnly {
+							names = append(names, "Info("+s.Name+")")
+						} else {
+							names = append(names, s.Name)
+						}
+					}
+					key := fmt.Sprintf("reuse3/%s@%d/%v", rd, cells, names)
+					input := map[string]interface{}{"renderer": rd, "cells": cells, "one_renderer_value_handles_in_order": names,
+						"note": "a name repeated with another [state] is the SAME model value, changed in place between the calls"}
+					nontrivial := false
+					diffs := mk.Reuse3(newR, hh.steps, func(i int, s mk.Step3, ts []*sdf.Triangle3) {
+						nontrivial = nontrivial || len(ts) > 0
+						hcell := s.S.BoundingBox().Size().MaxComponent() / float64(cells)
+						k := fmt.Sprintf("%s#%d", key, i)
+						if len(ts) == 0 {
+							r.Violate(k, fmt.Sprintf("C06 step %d (%s) of the history of one %s renderer value emitted no triangle", i, s.Name, rd), input)
+						}
+						worst, at := 0.0, v3.Vec{}
+						for _, t := range ts {
+							for _, v := range t {
+								if d := math.Abs(s.S.Evaluate(v)); d > worst {
+									worst, at = d, v
+								}
+							}
+						}
+						if worst > 1.02*hcell {
+							r.Violate(k, fmt.Sprintf("C06 step %d (%s) of the history of one %s renderer value (%d cells): vertex %v has |f(v)| = %g for the model being rendered (a 1-Lipschitz field), the cell edge is %g: not a crossing of a lattice edge that straddles the surface", i, s.Name, rd, cells, at, worst, hcell), input)
+						}
+					})
+					r.Case(hh.stratum, key, nontrivial)
+					for _, d := range diffs {
+						r.Violate(fmt.Sprintf("%s#%d", key, d.Step), fmt.Sprintf("C06 history %d of one %s renderer value (%d cells), step %d (%s): %s", hi, rd, cells, d.Step, d.Name, d.What), input)
+					}
 				}
 			}
 		}
